@@ -902,3 +902,30 @@ func VH_C11_id_reused_for_another_secret() {
 	verifQuiesce()
 	verifReach("C11.renumbered.done", true)
 }
+
+// C11: one key id and secret offered with two ciphers by two services (a user list published on
+// two ports): reloading the unchanged configuration changes nothing for either
+func VH_C11_same_id_two_ciphers_across_reload() {
+	sm := &verifSvcMetrics{}
+	s := verifNewServer(sm)
+	k0, k1 := verifKeys[0], verifKeys[1] // same secret, chacha20 and aes-128-gcm
+	cfg := Config{Services: []ServiceConfig{
+		verifSvc([]verifLn{verifL1T}, verifKC("user", k0)),
+		verifSvc([]verifLn{verifL2T}, verifKC("user", k1)),
+	}}
+	verifAssert("C11.two-ciphers.first-load-ok", verifLoadCfg(s, &verifCfgStep{cfg: cfg}) == nil)
+	for round := 0; round < 3; round++ {
+		if round > 0 {
+			verifAssert("C11.two-ciphers.reload-ok", verifLoadCfg(s, &verifCfgStep{cfg: cfg}) == nil)
+		}
+		up, auth, id := verifProbeTCP(sm, 9201, k0)
+		verifAssert("C11.two-ciphers.first-service-key-authenticates-throughout", up && auth && id == "user")
+		up, auth, id = verifProbeTCP(sm, 9202, k1)
+		verifAssert("C11.two-ciphers.second-service-key-authenticates-throughout", up && auth && id == "user")
+		up, auth, _ = verifProbeTCP(sm, 9201, k1)
+		verifAssert("C09.two-ciphers.other-services-key-refused", up && !auth)
+	}
+	verifAssert("C11.two-ciphers.stop-ok", s.Stop() == nil)
+	verifQuiesce()
+	verifReach("C11.two-ciphers.done", true)
+}
